@@ -1293,9 +1293,13 @@ impl DbInner {
 		let num_cleanup = self.log.num_dirty_logs();
 		let result = if num_cleanup > keep_logs {
 			if self.options.sync_data {
+				#[cfg(parity_db_verif)]
+				crate::verif::yield_point("flush_tables:begin");
 				for c in self.columns.iter() {
 					c.flush()?;
 				}
+				#[cfg(parity_db_verif)]
+				crate::verif::yield_point("flush_tables:end");
 			}
 			self.log.clean_logs(num_cleanup - keep_logs)?
 		} else {
@@ -1306,9 +1310,13 @@ impl DbInner {
 	}
 
 	fn clean_all_logs(&self) -> Result<()> {
+		#[cfg(parity_db_verif)]
+		crate::verif::yield_point("flush_tables:begin");
 		for c in self.columns.iter() {
 			c.flush()?;
 		}
+		#[cfg(parity_db_verif)]
+		crate::verif::yield_point("flush_tables:end");
 		let num_cleanup = self.log.num_dirty_logs();
 		self.log.clean_logs(num_cleanup)?;
 		Ok(())
